@@ -30,6 +30,7 @@ const (
 	kindCor = iota
 	kindDoNotation
 	kindNewAndStart // created and started in one call (starts before the target unless Eager is off... see below)
+	kindBare        // a plain goroutine whose caller identity is a coroutine handle that is never started
 )
 
 type callerSpec struct {
@@ -41,6 +42,9 @@ type callerSpec struct {
 	// observes on, 2 another (unbuffered) handler, 3 a handler that has been closed. YieldFromIO returns the
 	// IO's value whatever the IO's own delivery configuration is
 	IOSub int `json:"ioSub"`
+	// IOChain: the configured IO is not handed over itself but as the inner IO of a composition
+	// Just(0).FlatMap(func(int) { return io }); the composition's value is the inner IO's value
+	IOChain bool `json:"ioChain,omitempty"`
 	// DoRecv (DoNotation callers): the receiver the method is called on - 0 a zero CorDef, 1 the target
 	// coroutine itself (possibly running), 2 a helper coroutine that is started and running for the whole
 	// scenario. DoNotation gives its effect a coroutine of its own whatever it is called on
@@ -57,15 +61,18 @@ type scenario struct {
 	Eager bool `json:"eager"`
 	// Restart: after the target has been started, Start()/StartWithVal() are called again on it
 	// (a started coroutine ignores them: no second effect, no phantom request)
-	Restart int       `json:"restart"` // 0 none, 1 Start(), 2 StartWithVal(x), 3 both
-	Plan    vlib.Plan `json:"plan"`
+	Restart int `json:"restart"` // 0 none, 1 Start(), 2 StartWithVal(x), 3 both
+	// BareTarget: the target is a never-started handle whose YieldRefs are made by a plain goroutine
+	// (a mailbox); nothing in the request/reply pairing depends on how the goroutines were launched
+	BareTarget bool      `json:"bareTarget,omitempty"`
+	Plan       vlib.Plan `json:"plan"`
 }
 
 func (s scenario) String() string {
 	var sb strings.Builder
-	fmt.Fprintf(&sb, "shape=%s startWithVal=%v eager=%v restart=%d callers=", []string{"fixed", "echo", "accumulate"}[s.Shape], s.StartWithVal, s.Eager, s.Restart)
+	fmt.Fprintf(&sb, "shape=%s startWithVal=%v eager=%v restart=%d bareTarget=%v callers=", []string{"fixed", "echo", "accumulate"}[s.Shape], s.StartWithVal, s.Eager, s.Restart, s.BareTarget)
 	for _, c := range s.Callers {
-		fmt.Fprintf(&sb, "[%s k=%d io@%d h=%v sub=%d recv=%d gap=%d]", []string{"cor", "do", "newAndStart"}[c.Kind], c.K, c.IOAt, c.IOHandler, c.IOSub, c.DoRecv, c.Gap)
+		fmt.Fprintf(&sb, "[%s k=%d io@%d h=%v sub=%d chain=%v recv=%d gap=%d]", []string{"cor", "do", "newAndStart", "bare"}[c.Kind], c.K, c.IOAt, c.IOHandler, c.IOSub, c.IOChain, c.DoRecv, c.Gap)
 	}
 	fmt.Fprintf(&sb, " plan=%v", s.Plan)
 	return sb.String()
@@ -86,7 +93,7 @@ func genScenario(t *rapid.T) scenario {
 		}
 		k := rapid.IntRange(1, maxK).Draw(t, "k")
 		remaining -= k
-		c := callerSpec{K: k, Kind: rapid.SampledFrom([]int{kindCor, kindCor, kindDoNotation, kindNewAndStart}).Draw(t, "kind"), IOAt: -1, Gap: rapid.IntRange(0, 3).Draw(t, "gap")}
+		c := callerSpec{K: k, Kind: rapid.SampledFrom([]int{kindCor, kindCor, kindDoNotation, kindNewAndStart, kindBare}).Draw(t, "kind"), IOAt: -1, Gap: rapid.IntRange(0, 3).Draw(t, "gap")}
 		if c.Kind == kindDoNotation {
 			c.DoRecv = rapid.IntRange(0, 2).Draw(t, "doRecv")
 		}
@@ -94,6 +101,7 @@ func genScenario(t *rapid.T) scenario {
 			c.IOAt = rapid.IntRange(0, k-1).Draw(t, "ioAt")
 			c.IOHandler = rapid.Bool().Draw(t, "ioHandler")
 			c.IOSub = rapid.SampledFrom([]int{0, 0, 1, 2, 3}).Draw(t, "ioSub")
+			c.IOChain = rapid.IntRange(0, 2).Draw(t, "ioChain") == 0
 		}
 		s.Callers = append(s.Callers, c)
 	}
@@ -101,6 +109,9 @@ func genScenario(t *rapid.T) scenario {
 	s.Eager = rapid.Bool().Draw(t, "eager")
 	s.Restart = rapid.SampledFrom([]int{0, 0, 1, 2, 3}).Draw(t, "restart")
 	s.Plan = vlib.DrawPlan(t, corPoints, 6)
+	if rapid.IntRange(0, 5).Draw(t, "bareTarget") == 0 {
+		s.BareTarget, s.StartWithVal, s.Eager, s.Restart = true, false, false, 0
+	}
 	return s
 }
 
@@ -157,9 +168,9 @@ func runScenario(s scenario) result {
 	var target *fpgo.CorDef[int]
 	var targetStartedInside, targetDoneInside int32
 	targetFinished := make(chan struct{})
-	target = fpgo.CorNewGenerics[int](func() {
+	targetBody := func() {
 		defer close(targetFinished)
-		if target.IsStarted() {
+		if target.IsStarted() || s.BareTarget {
 			atomic.StoreInt32(&targetStartedInside, 1)
 		}
 		if target.IsDone() {
@@ -181,7 +192,12 @@ func runScenario(s scenario) result {
 			prevX = x
 			sum += x
 		}
-	})
+	}
+	if s.BareTarget {
+		target = fpgo.CorNewGenerics[int](func() {})
+	} else {
+		target = fpgo.CorNewGenerics[int](targetBody)
+	}
 	if target.IsStarted() || target.IsDone() {
 		fail("C14/lifecycle", "a new coroutine reports IsStarted=%v IsDone=%v before Start", target.IsStarted(), target.IsDone())
 	}
@@ -214,8 +230,12 @@ func runScenario(s scenario) result {
 				case 3:
 					io = io.SubscribeOn(hClosed)
 				}
+				if spec.IOChain {
+					inner := io
+					io = fpgo.MonadIOJustGenerics(0).FlatMap(func(int) *fpgo.MonadIODef[int] { return inner })
+				}
 				ioResults[i] = [2]int{want, self.YieldFromIO(io)}
-				if spec.IOHandler && effG != hID {
+				if spec.IOHandler && !spec.IOChain && effG != hID {
 					fail("C14/yieldFromIO-handler", "caller %d: the effect of a MonadIO observed on a handler did not run on that handler's goroutine", i)
 				}
 			}
@@ -247,11 +267,15 @@ func runScenario(s scenario) result {
 				}
 			})
 			cors[i] = c
-		case kindDoNotation:
+		case kindDoNotation, kindBare:
 			atomic.AddInt32(&startedInside, 1)
 		}
 	}
 	startTarget := func() {
+		if s.BareTarget {
+			go targetBody()
+			return
+		}
 		if s.StartWithVal {
 			target.StartWithVal(startVal)
 		} else {
@@ -303,6 +327,14 @@ func runScenario(s scenario) result {
 			})
 			cors[i] = c
 			close(ready)
+		case kindBare:
+			go func() {
+				defer wg.Done()
+				me := fpgo.CorNewGenerics[int](func() {})
+				if p, st := vlib.Try(func() { callerBody(i, me) }); p != nil {
+					fail("C14/panic", "caller %d panicked: %v\n%s", i, p, st)
+				}
+			}()
 		case kindDoNotation:
 			go doNotationCaller(&wg, fail, func() {
 				var zero fpgo.CorDef[int]
@@ -369,7 +401,7 @@ func runScenario(s scenario) result {
 		fail("C14/lifecycle", "IsStarted() was false inside the running effect of a caller")
 	}
 	if !vlib.WaitUntil(vlib.StallBudget(), func() bool {
-		if !target.IsDone() {
+		if !target.IsDone() && !s.BareTarget {
 			return false
 		}
 		for _, c := range cors {
@@ -515,6 +547,8 @@ func TestRegress(t *testing.T) {
 		{Shape: shapeFixed, Callers: []callerSpec{{K: 5, IOAt: -1}}, Restart: 3},
 		{Shape: shapeFixed, Callers: []callerSpec{{K: 3, IOAt: -1}, {K: 3, IOAt: -1}, {K: 2, IOAt: -1, Kind: kindDoNotation}}, StartWithVal: true, Eager: true},
 		{Shape: shapeEcho, Callers: []callerSpec{{K: 8, IOAt: -1}, {K: 8, IOAt: 2, IOHandler: true}}, StartWithVal: true},
+		{Shape: shapeFixed, Callers: []callerSpec{{K: 7, IOAt: -1, Kind: kindBare}, {K: 7, IOAt: 3, Kind: kindBare, IOSub: 2, IOChain: true}, {K: 2, IOAt: -1}}},
+		{Shape: shapeEcho, Callers: []callerSpec{{K: 6, IOAt: -1, Kind: kindDoNotation}, {K: 3, IOAt: -1, Kind: kindBare}}, BareTarget: true},
 		{Shape: shapeAccumulate, Callers: []callerSpec{{K: 5, Kind: kindDoNotation, IOAt: 0}, {K: 5, IOAt: -1}, {K: 5, Kind: kindDoNotation, IOAt: -1}}},
 		{Shape: shapeFixed, Callers: []callerSpec{{K: 4, IOAt: -1}, {K: 4, IOAt: -1}, {K: 4, IOAt: -1}, {K: 4, IOAt: -1}, {K: 4, IOAt: -1}, {K: 4, IOAt: -1}, {K: 4, IOAt: -1}, {K: 4, IOAt: -1}}, StartWithVal: true},
 	}
